@@ -9,8 +9,12 @@ import AmVerif.Lemmas.TopoGraph
 * forward view of the graph maintenance (`insertAsset_get_self`, `insertAsset_get_ne`,
   `addDeps_get_self`, `addDeps_get_ne`): what `typed` / `deps` of each node become.
 * `reloadAll_cons_eq`, `reloadAll_one_*` — a pass is the iteration of its one-key step.
-* `SettledAt` / `Settled`, the invariant `PInv` of a pass, the one-key step `pinv_step`, the initial
-  invariant `pinv_init`, and `reloadAll_converges`.
+* `SettledAt` / `Settled`, the invariant `PInv` of a pass, the one-key step `pinv_step`
+  (`pinv_skip` / `pinv_ok` / `pinv_err`), the initial invariant `pinv_init`, and `reloadAll_converges`.
+* `PassStep` / `passSteps` / `updateSteps` and the three hypotheses on the reloads of a pass:
+  `NoMissInPass` (excludes F-C05d), `ReloadsReturn`, `NoRewireOntoPending` (excludes F-C05e).
+* executable checks (`settledB`, `stepsHitB`, `stepsReturnB`, `noRewireB`, `noMissB`) with their
+  soundness lemmas, for concrete instances.
 -/
 namespace AmVerif.Model
 open AmVerif.Gen AmVerif.Lemmas.TopoGraph AmVerif.Lemmas.Topo
